@@ -34,6 +34,7 @@ import (
 
 	"github.com/projectcalico/calico/libcalico-go/lib/backend/model"
 	"github.com/projectcalico/calico/libcalico-go/lib/ipam"
+	cnet "github.com/projectcalico/calico/libcalico-go/lib/net"
 	"github.com/projectcalico/calico/verifkit/ev"
 	"github.com/projectcalico/calico/verifkit/memds"
 )
@@ -93,6 +94,34 @@ type c19Scenario struct {
 	classes  map[string]bool
 	kindsRun []string
 	excluded int
+	excluded2 int
+	knownHits map[string]int
+	wholePool int // out of 10: ClaimAffinity / ReleaseAffinity target the whole v4 pool
+	pool4     string
+}
+
+// c19SigAssignIPConflict: AssignIP increments the handle record, then writes the block; when
+// the block write hits a CAS conflict it retries the whole iteration (ipam.go AssignIP:
+// "CAS error assigning IP - retry" -> continue) without taking the increment back, so every
+// conflict - real concurrency, no fault needed - leaves the handle record one too high.
+const c19SigAssignIPConflict = "c19-assignip-cas-retry-handle-overcount"
+
+// c19SigSharedHandleCache: ReleaseIPs with more than two addresses lists all handles once and
+// passes the same *model.KVPair per handle to every per-block goroutine (ipam.go ReleaseIPs ->
+// releaseIPsFromBlock -> decrementHandle(..., handleMap[handleID])).  decrementHandle mutates
+// that object in place, so when one handle has addresses in two of the blocks being released,
+// the goroutine that writes first also persists the other goroutine's in-memory decrement; the
+// other then gets a CAS conflict, re-reads and decrements again: the handle record under-counts
+// (and in real concurrency this is also a Go data race).
+const c19SigSharedHandleCache = "c19-releaseips-shared-handle-cache-double-decrement"
+
+func c19BlockOf(addr string) string {
+	a := netip.MustParseAddr(addr)
+	bits := 30
+	if a.Is6() {
+		bits = 126
+	}
+	return netip.PrefixFrom(a, bits).Masked().String()
 }
 
 // c19SigPartialBlock: AutoAssign(num>1, handle) increments the handle record by the number of
@@ -229,22 +258,35 @@ func (s *c19Scenario) drawOp(t *rapid.T, client int, id string) *c19Op {
 			}
 			o.Rel = append(o.Rel, rel)
 		}
+		if len(o.Rel) > 2 && c19Known(c19SigSharedHandleCache) {
+			// Known finding: with more than two addresses ReleaseIPs pre-fetches all handles and
+			// hands the same KVPair objects to its per-block goroutines.  Keep the request on
+			// the un-cached path unless all addresses are in one block (one goroutine).
+			blk := map[string]bool{}
+			for _, r := range o.Rel {
+				blk[c19BlockOf(r.Address)] = true
+			}
+			if len(blk) > 1 {
+				o.Rel = o.Rel[:2]
+				s.excluded2++
+			}
+		}
 	case c19ReleaseByHandle:
 		hs := append([]string{"h1", "h2", "h3"}, s.liveHandles()...)
 		h := rapid.SampledFrom(hs).Draw(t, "handle")
 		o.Handle = &h
 	case c19ClaimAffinity:
 		o.TargetHost = o.Host
-		if rapid.IntRange(0, 9).Draw(t, "wholePool") == 0 {
-			o.CIDR = c19PoolV4
+		if rapid.IntRange(0, 9).Draw(t, "wholePool") < s.wholePool {
+			o.CIDR = s.pool4
 		} else {
 			o.CIDR = rapid.SampledFrom(append(append([]string{}, s.blocks4...), s.blocks6...)).Draw(t, "block")
 		}
 	case c19ReleaseAffinity:
 		o.TargetHost = rapid.SampledFrom(s.hosts).Draw(t, "targetHost")
 		o.MustBeEmpty = rapid.Bool().Draw(t, "mustBeEmpty")
-		if rapid.IntRange(0, 9).Draw(t, "wholePool") == 0 {
-			o.CIDR = c19PoolV4
+		if rapid.IntRange(0, 9).Draw(t, "wholePool") < s.wholePool {
+			o.CIDR = s.pool4
 		} else {
 			o.CIDR = rapid.SampledFrom(append(append([]string{}, s.blocks4...), s.blocks6...)).Draw(t, "block")
 		}
@@ -333,6 +375,20 @@ func (s *c19Scenario) onFinish(o *c19Op) {
 			if o.Handle != nil {
 				nw.handle, nw.hasHandle = *o.Handle, true
 			}
+			// The block write that allocated the address happened somewhere inside the
+			// operation's interval; a release that could hit it and ended inside that interval
+			// may legitimately have freed it again already.
+			overlapped := false
+			for _, r := range s.r.ops {
+				if r != o && r.finished && r.endStep >= o.startStep && c19CanHit(r, a, nw) {
+					overlapped = true
+				}
+			}
+			if overlapped {
+				delete(s.model.live, a)
+				s.classes["assign-overlapped-by-release"] = true
+				continue
+			}
 			s.model.live[a] = nw
 		}
 		if len(o.IPs) > 0 {
@@ -387,6 +443,27 @@ func (s *c19Scenario) checkHandles(when string, final bool) {
 		if o.crashed || o.hadError {
 			for h := range o.involved {
 				tainted[h] = true
+			}
+		}
+	}
+	if c19Known(c19SigAssignIPConflict) {
+		// Known finding: every CAS conflict on the block write of AssignIP(handle) leaves the
+		// handle record one too high.  Tolerate an over-count on exactly those handles.
+		for _, c := range s.r.sched.Trace() {
+			if c.Result != "conflict" && c.Result != "injected-conflict" {
+				continue
+			}
+			parts := strings.Split(c.ID, "|")
+			if len(parts) != 5 || parts[3] != "Update" || !strings.Contains(parts[4], "/assignment/") {
+				continue
+			}
+			for _, o := range s.r.ops {
+				if o.ID == parts[0] && o.Kind == c19AssignIP && o.Handle != nil {
+					if !tainted[*o.Handle] {
+						s.knownHits[c19SigAssignIPConflict]++
+					}
+					tainted[*o.Handle] = true
+				}
 			}
 		}
 	}
@@ -456,7 +533,11 @@ func c19Run(t *rapid.T, rec *ev.Recorder, mix [c19NumKinds]int, fw c19FaultWeigh
 		clHost[i] = hosts[rapid.IntRange(0, nHosts-1).Draw(t, fmt.Sprintf("client%dHost", i))]
 	}
 	strict := rapid.IntRange(0, 3).Draw(t, "strict") == 0
-	w := c19NewWorld([]v3.IPPool{c19Pool("pool4", c19PoolV4, 30), c19Pool("pool6", c19PoolV6, 126)}, nil)
+	pool4 := c19PoolV4
+	if rapid.IntRange(0, 2).Draw(t, "smallPool") == 0 {
+		pool4 = "10.0.0.0/29" // two blocks: exhaustion and borrowing within a few operations
+	}
+	w := c19NewWorld([]v3.IPPool{c19Pool("pool4", pool4, 30), c19Pool("pool6", c19PoolV6, 126)}, nil)
 	for _, h := range hosts {
 		w.addNode(h, nil)
 	}
@@ -466,9 +547,9 @@ func c19Run(t *rapid.T, rec *ev.Recorder, mix [c19NumKinds]int, fw c19FaultWeigh
 	}
 	w.setConfig(cfg)
 
-	s := &c19Scenario{t: t, w: w, hosts: hosts, clHost: clHost, strict: strict, mix: mix, classes: map[string]bool{},
-		model: c19Model{live: map[string]c19Owner{}}, v4: c19PoolAddrs(c19PoolV4), v6: c19PoolAddrs(c19PoolV6),
-		blocks4: c19BlockCIDRs(c19PoolV4, 30), blocks6: c19BlockCIDRs(c19PoolV6, 126)}
+	s := &c19Scenario{t: t, w: w, hosts: hosts, clHost: clHost, strict: strict, mix: mix, classes: map[string]bool{}, knownHits: map[string]int{}, wholePool: 1,
+		model: c19Model{live: map[string]c19Owner{}}, v4: c19PoolAddrs(pool4), v6: c19PoolAddrs(c19PoolV6), pool4: pool4,
+		blocks4: c19BlockCIDRs(pool4, 30), blocks6: c19BlockCIDRs(c19PoolV6, 126)}
 	s.r = c19NewRunner(t, w, fw)
 	s.r.onFinish = s.onFinish
 	defer s.r.shutdown()
@@ -522,6 +603,12 @@ func c19Run(t *rapid.T, rec *ev.Recorder, mix [c19NumKinds]int, fw c19FaultWeigh
 	for i := 0; i < s.excluded; i++ {
 		rec.Excluded(c19SigPartialBlock)
 	}
+	for i := 0; i < s.excluded2; i++ {
+		rec.Excluded(c19SigSharedHandleCache)
+	}
+	if s.knownHits[c19SigAssignIPConflict] > 0 {
+		rec.Excluded(c19SigAssignIPConflict)
+	}
 	tr := s.r.sched.Trace()
 	conflicts := 0
 	blockClients := map[string]map[int]bool{}
@@ -557,6 +644,9 @@ func c19Run(t *rapid.T, rec *ev.Recorder, mix [c19NumKinds]int, fw c19FaultWeigh
 	if strict {
 		s.classes["strict-affinity"] = true
 	}
+	if pool4 != c19PoolV4 {
+		s.classes["small-pool"] = true
+	}
 	if shared {
 		s.classes["block-shared-by-clients"] = true
 	}
@@ -581,6 +671,9 @@ func c19Run(t *rapid.T, rec *ev.Recorder, mix [c19NumKinds]int, fw c19FaultWeigh
 			"conflicts": conflicts, "injected": s.r.injected}
 	}, dedup(cls)...)
 }
+
+func cnetMustCIDR(s string) cnet.IPNet { return cnet.MustParseCIDR(s) }
+func cnetIP(s string) *cnet.IP          { return cnet.ParseIP(s) }
 
 func dedup(in []string) []string {
 	seen := map[string]bool{}
@@ -607,9 +700,9 @@ func TestVerifC19Scheduled(t *testing.T) {
 		"a crashed operation is modelled as: none of its later datastore calls has any effect",
 		"the library's own map-iteration order (ReleaseByHandle over blocks, handle decrement order) is not controlled; it only affects replay fidelity, not the oracle")
 	defer rec.Write()
-	fw := c19FaultWeights{Conflict: 40, Error: 15, CrashBefore: 8, CrashAfter: 8, MaxCrashes: 2}
+	fw := c19FaultWeights{Conflict: 40, Error: 6, CrashBefore: 3, CrashAfter: 3, MaxCrashes: 2}
 	rapid.Check(t, func(t *rapid.T) {
-		c19Run(t, rec, c19Mix, fw, ev.Scale(4, 6), "scheduled")
+		c19Run(t, rec, c19Mix, fw, ev.Scale(5, 7), "scheduled")
 	})
 }
 
@@ -648,6 +741,154 @@ func TestVerifC19ConfirmPartialBlockHandleOvercount(t *testing.T) {
 	}
 	if left := w.snapshot().Handles["hB"]; len(left) != 0 {
 		t.Errorf("after ReleaseByHandle(hB) released every address of hB, its handle record still exists with %v", left)
+	}
+}
+
+// TestVerifC19ConfirmSharedHandleCacheDoubleDecrement is the deterministic reproducer of the
+// known finding c19SigSharedHandleCache.  It FAILS while the defect is present.  No faults; one
+// ReleaseIPs call; the only freedom used is the order of the two per-block goroutines.
+func TestVerifC19ConfirmSharedHandleCacheDoubleDecrement(t *testing.T) {
+	ev.Quiet()
+	w := c19NewWorld([]v3.IPPool{c19Pool("pool4", c19PoolV4, 30), c19Pool("pool6", c19PoolV6, 126)}, nil)
+	w.addNode("n1", nil)
+	w.setConfig(model.IPAMConfig{AutoAllocateBlocks: true})
+	ctx := context.Background()
+	h := "hX"
+	var got []string
+	for _, n := range [][2]int{{1, 1}, {1, 0}} { // handle hX: two v4 addresses in one block, one v6 address
+		v4, v6, err := w.ic.AutoAssign(ctx, ipam.AutoAssignArgs{Num4: n[0], Num6: n[1], HandleID: &h, Hostname: "n1", IntendedUse: v3.IPPoolAllowedUseWorkload})
+		if err != nil {
+			t.Fatalf("HARNESS-GAP: AutoAssign: %v", err)
+		}
+		for _, ia := range []*ipam.IPAMAssignments{v4, v6} {
+			if ia != nil {
+				for _, ip := range ia.IPs {
+					got = append(got, ip.IP.String())
+				}
+			}
+		}
+	}
+	if len(got) != 3 || c19BlockOf(got[0]) != c19BlockOf(got[2]) {
+		t.Fatalf("HARNESS-GAP: unexpected set-up %v", got)
+	}
+	before := w.snapshot()
+	// Release the first v4 address and the v6 address of hX, plus an unallocated third address
+	// (more than two addresses => the handle cache is used).
+	sched := memds.NewScheduler(w.store)
+	var relErr error
+	op := sched.Go("rel", func(ctx context.Context) {
+		_, _, relErr = w.ic.ReleaseIPs(ctx, ipam.ReleaseOptions{Address: got[0]}, ipam.ReleaseOptions{Address: got[1]}, ipam.ReleaseOptions{Address: "10.0.0.3"})
+	})
+	for {
+		calls, err := sched.Quiesce()
+		if err != nil {
+			t.Fatalf("HARNESS-GAP: %v", err)
+		}
+		if len(calls) == 0 {
+			break
+		}
+		// Everything except handle writes first; among handle writes the v6 block's goroutine first.
+		pick := -1
+		for i, c := range calls {
+			if !(c.Write && strings.Contains(c.Path, "/handle/")) {
+				pick = i
+				break
+			}
+		}
+		if pick < 0 {
+			for i, c := range calls {
+				if strings.Contains(c.ID, "ipv6") {
+					pick = i
+				}
+			}
+			if pick < 0 {
+				pick = 0
+			}
+		}
+		sched.Release(calls[pick], memds.FaultNone)
+	}
+	if err := sched.Shutdown(); err != nil || !op.Done() {
+		t.Fatalf("HARNESS-GAP: shutdown: %v", err)
+	}
+	if relErr != nil {
+		t.Fatalf("HARNESS-GAP: ReleaseIPs: %v", relErr)
+	}
+	snap := w.snapshot()
+	counts := snap.handleCounts()
+	for blk, n := range counts[h] {
+		if snap.Handles[h][blk] != n {
+			t.Errorf("no faults: handle %s had %v; ReleaseIPs(%s, %s, 10.0.0.3) left the handle record at %v but block %s still holds %d address(es) for it\nbefore:\n%safter:\n%s",
+				h, before.Handles[h], got[0], got[1], snap.Handles[h], blk, n, before, snap)
+		}
+	}
+}
+
+// c19DriveUntil releases parked calls of the scheduler one at a time, choosing with pick
+// (index into the identity-sorted parked calls, or -1 to stop).
+func c19Drive(t *testing.T, sched *memds.Scheduler, pick func(calls []*memds.Call) int) {
+	for {
+		calls, err := sched.Quiesce()
+		if err != nil {
+			t.Fatalf("HARNESS-GAP: %v", err)
+		}
+		if len(calls) == 0 {
+			return
+		}
+		i := pick(calls)
+		if i < 0 {
+			return
+		}
+		sched.Release(calls[i], memds.FaultNone)
+	}
+}
+
+// TestVerifC19ConfirmAssignIPConflictHandleOvercount is the deterministic reproducer of the
+// known finding c19SigAssignIPConflict.  It FAILS while the defect is present.  No faults: two
+// AssignIP calls for different addresses of one block overlap.
+func TestVerifC19ConfirmAssignIPConflictHandleOvercount(t *testing.T) {
+	ev.Quiet()
+	w := c19NewWorld([]v3.IPPool{c19Pool("pool4", c19PoolV4, 30)}, nil)
+	w.addNode("n1", nil)
+	w.setConfig(model.IPAMConfig{AutoAllocateBlocks: true})
+	// The block exists already (claimed by n1).
+	if _, _, err := w.ic.ClaimAffinity(context.Background(), cnetMustCIDR("10.0.0.0/30"), ipam.AffinityConfig{AffinityType: ipam.AffinityTypeHost, Host: "n1"}); err != nil {
+		t.Fatalf("HARNESS-GAP: ClaimAffinity: %v", err)
+	}
+	sched := memds.NewScheduler(w.store)
+	h := "hY"
+	var errA, errB error
+	sched.Go("a", func(ctx context.Context) {
+		errA = w.ic.AssignIP(ctx, ipam.AssignIPArgs{IP: *cnetIP("10.0.0.1"), HandleID: &h, Hostname: "n1"})
+	})
+	// a: run until it is about to write the block (the handle has been incremented by then).
+	c19Drive(t, sched, func(calls []*memds.Call) int {
+		if calls[0].Method == "Update" && strings.Contains(calls[0].Path, "/assignment/") {
+			return -1
+		}
+		return 0
+	})
+	sched.Go("b", func(ctx context.Context) {
+		errB = w.ic.AssignIP(ctx, ipam.AssignIPArgs{IP: *cnetIP("10.0.0.2"), Hostname: "n1"})
+	})
+	// b runs to completion, then a continues (CAS conflict, retry, success).
+	c19Drive(t, sched, func(calls []*memds.Call) int {
+		for i, c := range calls {
+			if strings.HasPrefix(c.ID, "b|") {
+				return i
+			}
+		}
+		return 0
+	})
+	if err := sched.Shutdown(); err != nil {
+		t.Fatalf("HARNESS-GAP: %v", err)
+	}
+	if errA != nil || errB != nil {
+		t.Fatalf("HARNESS-GAP: AssignIP errors: %v / %v", errA, errB)
+	}
+	snap := w.snapshot()
+	if got, want := snap.Handles[h]["10.0.0.0/30"], snap.handleCounts()[h]["10.0.0.0/30"]; got != want {
+		t.Errorf("no faults: AssignIP(10.0.0.1, handle hY) overlapped by AssignIP(10.0.0.2) in the same block: handle hY records %d addresses in 10.0.0.0/30, the block holds %d\n%s\ntrace: %v",
+			got, want, snap, sched.Trace())
 	}
 }
 
